@@ -529,6 +529,17 @@ def run(rep):
     it.loop_specs.clear()
     it.contracts.clear()
     table_obligations(rep, pv, it)
+    # per-gate step of the circuit codec (numbers written / read through the proved write_number / read_number contracts)
+    from . import c16_gate
+    for c in c16_gate.contracts(it):
+        pv.run_contract(c)
+    c16_gate.round_trip(pv, it)
+    it.contracts.clear()
+    it.loop_specs.clear()
+    from . import c16_enum
+    pv.run_contract(c16_enum.EnumerateGates())
+    it.contracts.clear()
+    it.loop_specs.clear()
     x = z3.Int('x')
     canary(rep, pv, 'C16/canary/bit7-is-bit0', [x >= 0, x < 256], bitof(x, z3.IntVal(7)) == bitof(x, z3.IntVal(0)))
     refuted = pv.discharge(env.NPROC)
